@@ -7,9 +7,10 @@ EXTENDS RefIter, Json
 CONSTANTS Wide, Bug_DirOrder
 
 H(s) == HEADS \o s
+APB == <<97,43,98>>   \* a+b: '+' (0x2b) sorts below '/' as well
 A == <<97>>  AMB == <<97,45,98>>  ADB == <<97,46,98>>  ASB == <<97,47,98>>  A0 == <<97,48>>  ASBSC == <<97,47,98,47,99>>
 \* per name: allowed placements  "-" absent, "L" loose, "P" packed, "B" both (packed value stale)
-Universe == << <<H(A), {"-","L","P","B"}>>, <<H(AMB), {"-","L","P"}>>, <<H(ADB), {"-","L"}>>, <<H(ASB), {"-","L","P","B"}>>,
+Universe == << <<H(A), {"-","L","P","B"}>>, <<H(AMB), {"-","L","P"}>>, <<H(ADB), {"-","L"}>>, <<H(APB), {"-","L","B"}>>, <<H(ASB), {"-","L","P","B"}>>,
                <<H(A0), {"-","P"} \cup (IF Wide THEN {"L"} ELSE {})>>, <<H(ASBSC), {"-","L","P"}>>, <<TAGS \o A, {"-","L","P"}>> >>
       \o (IF Wide THEN << <<REMOTES \o A \o SLASH_HEAD, {"-","L"}>>, <<REFS \o A, {"-","L"}>> >> ELSE <<>>)
 Shorts == { A, AMB, ASB, A0, ASBSC, HEADS \o A, <<104,101,97,100,115,47>> \o A, <<116,97,103,115,47>> \o A, <<98>> }
